@@ -168,8 +168,13 @@ package internal
 //@     0 <= recStart(r) && recStart(r) < recEnd(r) && recEnd(r) <= 536870910
 //@ spec func okOff(o bgzf.Offset) bool = 0 <= o.File && o.File < 140737488355328
 //@ spec func tilesBelow(iv []bgzf.Offset, o bgzf.Offset) bool = forall t in 0..len(iv) :: (okOff(iv[t]) && voff(iv[t]) <= voff(o))
-//@ spec func binsValid(bins []Bin) bool = len(bins) <= 65536 && forall a in 0..len(bins) :: (len(bins[a].Chunks) <= 1048576 &&
-//@     forall b in 0..len(bins[a].Chunks) :: (okOff(bins[a].Chunks[b].Begin) && okOff(bins[a].Chunks[b].End)))
+//@ spec func binsValid(bins []Bin) bool = (forall a in 0..len(bins) ::
+//@     forall b in 0..len(bins[a].Chunks) :: (okOff(bins[a].Chunks[b].Begin) && okOff(bins[a].Chunks[b].End))) &&
+//@     (forall a in 0..len(bins) :: forall a2 in 0..len(bins) :: (a != a2 ==>
+//@         (cap(bins[a].Chunks) == 0 || cap(bins[a2].Chunks) == 0 || bins[a].Chunks.id != bins[a2].Chunks.id)))
+//@ spec func binsSmall(bins []Bin) bool = len(bins) <= 65536 && forall a in 0..len(bins) :: len(bins[a].Chunks) <= 1048576
+//@ spec func chunkEndsBelow(bins []Bin, o bgzf.Offset) bool = forall a in 0..len(bins) :: forall b in 0..len(bins[a].Chunks) ::
+//@     voff(bins[a].Chunks[b].End) <= voff(o)
 
 //@ func Index.Add
 //@   mode int
@@ -181,7 +186,7 @@ package internal
 //@   requires 0 <= i.LastRecord && i.LastRecord <= 536870911
 //@   requires i.Unmapped != nil ==> (0 <= *i.Unmapped && *i.Unmapped < 4611686018427387904)
 //@   requires (placed && recRefID(r) == len(i.Refs) - 1) ==> (tilesBelow(i.Refs[recRefID(r)].Intervals, c.Begin) &&
-//@       binsValid(i.Refs[recRefID(r)].Bins) && len(i.Refs[recRefID(r)].Intervals) <= 32768 &&
+//@       binsValid(i.Refs[recRefID(r)].Bins) && binsSmall(i.Refs[recRefID(r)].Bins) && chunkEndsBelow(i.Refs[recRefID(r)].Bins, c.End) && len(i.Refs[recRefID(r)].Intervals) <= 32768 &&
 //@       (len(i.Refs[recRefID(r)].Intervals) == 0 || len(i.Refs[recRefID(r)].Intervals) > div(i.LastRecord, 16384)) &&
 //@       (i.Refs[recRefID(r)].Stats != nil ==> (i.Refs[recRefID(r)].Stats.Mapped < 4611686018427387904 &&
 //@           i.Refs[recRefID(r)].Stats.Unmapped < 4611686018427387904)))
@@ -191,10 +196,36 @@ package internal
 //@   at stmt "ref.Bins[i].Chunks[j].End = c.End" ghost wa = i; wb = j
 //@   at stmt "ref.Bins[i].Chunks = append(ref.Bins[i].Chunks, c)" ghost wa = i; wb = len(ref.Bins[i].Chunks) - 1
 //@   at stmt "ref.Bins = append(ref.Bins, Bin{" ghost wa = len(ref.Bins) - 1; wb = 0
+//@   at stmt "ref.Bins[i].Chunks[j].End = c.End" assert recRefID(r) == old(len(i.Refs)) - 1 ==> forall a in 0..old(len(i.Refs[recRefID(r)].Bins)) ::
+//@        forall b in 0..old(len(i.Refs[recRefID(r)].Bins[a].Chunks)) :: (
+//@           ref.Bins[a].Chunks[b].Begin == old(i.Refs[recRefID(r)].Bins[a].Chunks[b].Begin) &&
+//@           voff(old(i.Refs[recRefID(r)].Bins[a].Chunks[b].End)) <= voff(ref.Bins[a].Chunks[b].End))
+//@   at stmt "ref.Bins[i].Chunks = append(ref.Bins[i].Chunks, c)" assert recRefID(r) == old(len(i.Refs)) - 1 ==>
+//@        forall a2 in 0..old(len(i.Refs[recRefID(r)].Bins)) :: (a2 != wa ==> (old(cap(i.Refs[recRefID(r)].Bins[a2].Chunks)) == 0 ||
+//@           old(cap(i.Refs[recRefID(r)].Bins[now(wa)].Chunks)) == 0 ||
+//@           old(i.Refs[recRefID(r)].Bins[a2].Chunks.id) != old(i.Refs[recRefID(r)].Bins[now(wa)].Chunks.id)))
+//@   at stmt "ref.Bins[i].Chunks = append(ref.Bins[i].Chunks, c)" assert recRefID(r) == old(len(i.Refs)) - 1 ==>
+//@        forall b in 0..old(len(i.Refs[recRefID(r)].Bins[now(wa)].Chunks)) :: (
+//@           ref.Bins[wa].Chunks[b].Begin == old(i.Refs[recRefID(r)].Bins[now(wa)].Chunks[b].Begin) &&
+//@           voff(old(i.Refs[recRefID(r)].Bins[now(wa)].Chunks[b].End)) <= voff(ref.Bins[wa].Chunks[b].End))
+//@   at stmt "ref.Bins[i].Chunks = append(ref.Bins[i].Chunks, c)" assert recRefID(r) == old(len(i.Refs)) - 1 ==> forall a in 0..old(len(i.Refs[recRefID(r)].Bins)) ::
+//@        forall b in 0..old(len(i.Refs[recRefID(r)].Bins[a].Chunks)) :: (a != wa ==>
+//@           (ref.Bins[a].Chunks[b].Begin == old(i.Refs[recRefID(r)].Bins[a].Chunks[b].Begin) &&
+//@           voff(old(i.Refs[recRefID(r)].Bins[a].Chunks[b].End)) <= voff(ref.Bins[a].Chunks[b].End)))
+//@   at stmt "ref.Bins[i].Chunks = append(ref.Bins[i].Chunks, c)" assert recRefID(r) == old(len(i.Refs)) - 1 ==> forall a in 0..old(len(i.Refs[recRefID(r)].Bins)) ::
+//@        forall b in 0..old(len(i.Refs[recRefID(r)].Bins[a].Chunks)) :: (
+//@           ref.Bins[a].Chunks[b].Begin == old(i.Refs[recRefID(r)].Bins[a].Chunks[b].Begin) &&
+//@           voff(old(i.Refs[recRefID(r)].Bins[a].Chunks[b].End)) <= voff(ref.Bins[a].Chunks[b].End))
+//@   at stmt "ref.Bins = append(ref.Bins, Bin{" assert recRefID(r) == old(len(i.Refs)) - 1 ==> forall a in 0..old(len(i.Refs[recRefID(r)].Bins)) ::
+//@        forall b in 0..old(len(i.Refs[recRefID(r)].Bins[a].Chunks)) :: (
+//@           ref.Bins[a].Chunks[b].Begin == old(i.Refs[recRefID(r)].Bins[a].Chunks[b].Begin) &&
+//@           voff(old(i.Refs[recRefID(r)].Bins[a].Chunks[b].End)) <= voff(ref.Bins[a].Chunks[b].End))
 //@   loop 0 invariant @scan 0 <= rangeindex + 1 && rangeindex + 1 <= len(ref.Bins)
 //@   loop 1 invariant @scan 0 <= rangeindex + 1 && rangeindex + 1 <= 4611686018427387904
 //@   loop 2 invariant @fill biv <= iv && iv <= eiv + 1 && fresh(intvs) && len(intvs) == eiv + 1 &&
 //@       (forall t in 0..iv :: (okOff(intvs[t]) && voff(intvs[t]) <= voff(c.Begin)))
+//@   loop 2 invariant @kept recRefID(r) == old(len(i.Refs)) - 1 ==> (old(len(i.Refs[recRefID(r)].Intervals)) <= iv &&
+//@       forall t in 0..old(len(i.Refs[recRefID(r)].Intervals)) :: intvs[t] == old(i.Refs[recRefID(r)].Intervals[t]))
 //@   loop 2 decreases eiv + 1 - iv
 //@   ensures[C04] @neverfails result == nil
 //@   ensures[C04] @refs placed ==> (len(i.Refs) == recRefID(r) + 1 && i.LastRecord == recStart(r))
@@ -204,6 +235,16 @@ package internal
 //@       len(i.Refs[recRefID(r)].Intervals) > div(i.LastRecord, 16384))
 //@   ensures[C04] @bin placed ==> (0 <= wa && wa < len(i.Refs[recRefID(r)].Bins) && i.Refs[recRefID(r)].Bins[wa].Bin == bin &&
 //@       0 <= wb && wb < len(i.Refs[recRefID(r)].Bins[wa].Chunks) && voff(c.End) <= voff(i.Refs[recRefID(r)].Bins[wa].Chunks[wb].End))
+//@   ensures[C04] @binsvalid placed ==> (binsValid(i.Refs[recRefID(r)].Bins) && chunkEndsBelow(i.Refs[recRefID(r)].Bins, c.End))
+//@   ensures[C04] @tilekept (placed && recRefID(r) == old(len(i.Refs)) - 1) ==> forall t in 0..old(len(i.Refs[recRefID(r)].Intervals)) ::
+//@       (t < len(i.Refs[recRefID(r)].Intervals) && i.Refs[recRefID(r)].Intervals[t] == old(i.Refs[recRefID(r)].Intervals[t]))
+//@   ensures[C04] @binskept (placed && recRefID(r) == old(len(i.Refs)) - 1) ==> forall a in 0..old(len(i.Refs[recRefID(r)].Bins)) ::
+//@       (a < len(i.Refs[recRefID(r)].Bins) && i.Refs[recRefID(r)].Bins[a].Bin == old(i.Refs[recRefID(r)].Bins[a].Bin) &&
+//@        old(len(i.Refs[recRefID(r)].Bins[a].Chunks)) <= len(i.Refs[recRefID(r)].Bins[a].Chunks))
+//@   ensures[C04] @chunkskept (placed && recRefID(r) == old(len(i.Refs)) - 1) ==> forall a in 0..old(len(i.Refs[recRefID(r)].Bins)) ::
+//@        forall b in 0..old(len(i.Refs[recRefID(r)].Bins[a].Chunks)) :: (
+//@           i.Refs[recRefID(r)].Bins[a].Chunks[b].Begin == old(i.Refs[recRefID(r)].Bins[a].Chunks[b].Begin) &&
+//@           voff(old(i.Refs[recRefID(r)].Bins[a].Chunks[b].End)) <= voff(i.Refs[recRefID(r)].Bins[a].Chunks[b].End))
 //@   ensures[C15] @mapped placed ==> (i.Refs[recRefID(r)].Stats != nil && i.Refs[recRefID(r)].Stats.Mapped ==
 //@       ite(recRefID(r) == old(len(i.Refs)) - 1 && old(i.Refs[recRefID(r)].Stats) != nil, old(i.Refs[recRefID(r)].Stats.Mapped), 0) + ite(mapped, 1, 0))
 //@   ensures[C15] @unmapped placed ==> (i.Refs[recRefID(r)].Stats != nil && i.Refs[recRefID(r)].Stats.Unmapped ==
